@@ -60,3 +60,55 @@ package aggregator
 //@ ensures [encoder-finished-and-sink-closed-on-every-exit] imp(result_of(a.conf.Sink.OpenSink, 1) == nil, (ev(closer_close) - old(ev(closer_close))) + (ev(enc_flushed) - old(ev(enc_flushed))) >= 2 && ev(closer_close) >= old(ev(closer_close)) + 1)
 //@ ensures [drops-fail-the-run] imp(result_of(a.conf.Sink.OpenSink, 1) == nil && a.samplesDropped != 0, err != nil)
 //@ ensures [encode-failure-fails-the-run] imp(calls(a.handleSample) > 0 && result_of(a.handleSample, 0) != nil, err != nil)
+
+// ---------------------------------------------------------------- JSON lines encoder: one value and one newline per sample
+
+//@ func (e *jsonEncoder) Encode
+//@ props C06
+//@ at call e.WriteVal assert [the-sample] arg(val) == s
+//@ at call e.WriteRaw assert [newline-after-the-value] arg(s) == "\n" && calls(e.WriteVal) == 1
+//@ ensures [one-value-one-newline] calls(e.WriteVal) == 1 && calls(e.WriteRaw) == 1
+//@ ensures [stream-error-is-returned] result == e.Stream.Error
+
+// The stream is flushed into the buffer before the buffer is flushed into the writer; the stream's error is returned.
+//@ func (e *jsonEncoder) Flush
+//@ props C06
+//@ at call e.buf.Flush assert [stream-first] calls(e.Stream.Flush) == 1
+//@ ensures [both-levels-flushed] calls(e.Stream.Flush) == 1 && calls(e.buf.Flush) == 1
+//@ ensures [stream-error-is-returned] result == result_of(e.Stream.Flush, 0)
+
+//@ func NewJSONEncoder
+//@ props C06
+//@ at call bufio.NewWriterSize assert [buffer-in-front-of-the-writer] arg(w) == w0
+//@ at call jsoniter.NewStream assert [stream-writes-into-the-buffer] arg(out) == box(result_of(bufio.NewWriterSize, 0))
+//@ ensures [encoder-of-that-stream-and-buffer] typeis(result, *jsonEncoder) && result.(*jsonEncoder).buf == result_of(bufio.NewWriterSize, 0) && result.(*jsonEncoder).Stream == result_of(jsoniter.NewStream, 0)
+
+//@ func NewJSONLinesAggregator#lit0
+//@ props C06
+//@ at call ioutil2.NewCallbackWriter assert [callback-on-the-sink-writer] arg(w) == w0
+//@ at call NewJSONEncoder assert [encoder-over-the-callback-writer] arg(w) == box(result_of(ioutil2.NewCallbackWriter, 0)) && arg(conf) == conf.JSONLineEncoderConfig
+
+//@ func NewJSONLinesAggregator
+//@ props C06
+//@ requires conf.EncoderAggregatorConfig.ReporterConfig.SampleQueueSize >= 0
+//@ at call NewEncoderAggregator assert [config-forwarded] arg(conf) == conf.EncoderAggregatorConfig
+
+//@ func NewEncoderAggregator
+//@ props C06
+// ReporterConfig.SampleQueueSize carries validate:"min=1"
+//@ requires conf.ReporterConfig.SampleQueueSize >= 0
+//@ ensures [aggregator-of-the-given-encoder-and-config] typeis(result, *dataSinkAggregator) && result.(*dataSinkAggregator).conf == conf
+//@ at call NewReporter assert [reporter-config-forwarded] arg(conf) == conf0.ReporterConfig
+
+//@ func DefaultEncoderAggregatorConfig
+//@ props C06 C17
+//@ ensures [defaults] result.FlushInterval == 1000000000 && result.ReporterConfig == result_of(DefaultReporterConfig, 0)
+
+//@ func NewReporter
+//@ props C06
+//@ requires conf.SampleQueueSize >= 0
+//@ ensures [queue-of-the-configured-size] fresh(result) && cap(result.Incomming) == conf.SampleQueueSize && result.samplesDropped == 0 && sent(result.Incomming) == 0 && !closed(result.Incomming)
+
+//@ func DefaultReporterConfig
+//@ props C06 C17
+//@ ensures [default-queue] result.SampleQueueSize == 131072
